@@ -113,6 +113,39 @@ def step : List String → String
         | none => "bad-op"
       | _ => "bad-op"
     | _, _, _, _ => "bad-op"
+  | "txf2" :: typ :: wire :: n :: rest =>
+    match nat? typ, hexBytes? wire, nat? n with
+    | some typ, some w, some n =>
+      match takeHex n rest with
+      | some (adds, ty :: ptype :: h1 :: _lock1 :: m :: rest2) =>
+        match nat? ty, nat? ptype, hexBytes? h1, nat? m with
+        | some ty, some ptype, some h1, some m =>
+          match takeHex m rest2 with
+          | some (outs, q :: rest3) =>
+            match nat? q with
+            | some q =>
+              match takeOps q rest3 with
+              | some (ins, [h2, _lock2, k, vref]) =>
+                match hexBytes? h2, nat? k, ElaVerif.TxFilter.load typ w with
+                | some h2, some k, some (ft, f) =>
+                  match addAll mm f adds with
+                  | none => "panic"
+                  | some g =>
+                    let facts : ElaVerif.TxFilter.TxFacts := ⟨ty, 9, false, ptype, vref == "1" && !ins.isEmpty⟩
+                    match ElaVerif.TxFilter.matchConfirmed mm ft g ⟨h1, UInt8.ofNat ty, outs, ins⟩ facts with
+                    | none => "panic"
+                    | some (b1, g1) =>
+                      match ElaVerif.TxFilter.matchConfirmed mm ft g1 ⟨h2, 2, [], [⟨h1, k⟩]⟩ ⟨2, 9, false, 0, false⟩ with
+                      | none => "panic"
+                      | some (b2, _) => boolStr b1 ++ " " ++ boolStr b2
+                | some _, some _, none => "err"
+                | _, _, _ => "bad-op"
+              | _ => "bad-op"
+            | none => "bad-op"
+          | _ => "bad-op"
+        | _, _, _, _ => "bad-op"
+      | _ => "bad-op"
+    | _, _, _ => "bad-op"
   | "txf" :: typ :: wire :: conf :: n :: rest =>
     -- filter.New(newFilter).Load(TxFilterLoad{typ, wire}); Add...; MatchConfirmed / MatchUnconfirmed
     match nat? typ, hexBytes? wire, nat? n with
@@ -132,7 +165,7 @@ def step : List String → String
                 -- a vote output (program hash of 21 zero bytes) follows the listed outputs
                 let outs' := if vote = 0 then outs else outs ++ [List.replicate 21 0]
                 let tx : Tx := ⟨h, UInt8.ofNat ty, outs', []⟩
-                let facts : ElaVerif.TxFilter.TxFacts := ⟨ty, ver, vote == 1, ptype⟩
+                let facts : ElaVerif.TxFilter.TxFacts := ⟨ty, ver, vote == 1, ptype, false⟩
                 let r := if conf = "1" then ElaVerif.TxFilter.matchConfirmed mm ft g tx facts
                          else ElaVerif.TxFilter.matchUnconfirmed mm ft g tx facts
                 match r with
